@@ -153,6 +153,12 @@ structure File where
 
 def File.content (f : File) : List Nat := f.synced ++ f.unsynced
 
+/-- The directory entry becomes durable. -/
+def File.setDurable (f : File) : File := { f with durable := true }
+
+/-- `sync_all`: everything written so far becomes durable content. -/
+def File.syncedAll (f : File) : File := { f with synced := f.synced ++ f.unsynced, unsynced := [] }
+
 inductive Fault where
   | ok
   | err
@@ -246,7 +252,7 @@ def openNew (plan : Nat → Fault) (n : List Nat) (s : St) : R Unit :=
                               log := s.log ++ [.created n] }
 
 def syncParent (plan : Nat → Fault) (s : St) : R Unit :=
-  simpleOp plan s fun s => .ok () { s with fs := s.fs.map fun e => (e.1, { e.2 with durable := true }) }
+  simpleOp plan s fun s => .ok () { s with fs := s.fs.map fun e => (e.1, e.2.setDurable) }
 
 def openExisting (plan : Nat → Fault) (n : List Nat) (s : St) : R Unit :=
   simpleOp plan s fun s =>
@@ -284,7 +290,7 @@ def flushFile (plan : Nat → Fault) (s : St) : R Unit :=
 def syncAll (plan : Nat → Fault) (n : List Nat) (s : St) : R Unit :=
   simpleOp plan s fun s =>
     match fsGet s.fs n with
-    | some f => .ok () { s with fs := fsSet s.fs n { f with synced := f.synced ++ f.unsynced, unsynced := [] } }
+    | some f => .ok () { s with fs := fsSet s.fs n f.syncedAll }
     | none => .ok () s
 
 def removeFile (plan : Nat → Fault) (n : List Nat) (s : St) : R Unit :=
@@ -400,6 +406,18 @@ def createFile (cfg : Config) (plan : Nat → Fault) (now : Parts) (id : Nat) (s
 def fits (cfg : Config) (now : Parts) (b : Batch) (a : Active) : Bool :=
   decide (a.size + b.remaining ≤ cfg.maxSize) && decide (a.ts = fileTs cfg.rollBy now)
 
+/-- With the listing in hand and no active file: reuse the newest file if enabled, it opens and the batch fits
+    (lib.rs:788-815), else create one. -/
+def openOrCreate (cfg : Config) (plan : Nat → Fault) (now : Parts) (id : Nat) (b : Batch) (set : List (List Nat))
+    (s : St) : R Active :=
+  match (if cfg.reuse then set.head? else none) with
+  | none => createFile cfg plan now id set s
+  | some n =>
+    match tryOpenReuse cfg plan n s with
+    | .crash s => .crash s
+    | .err s => createFile cfg plan now id set s
+    | .ok a s => if fits cfg now b a then .ok a s else createFile cfg plan now id set s
+
 /-- Everything `on_batch` does before the write loop (lib.rs:752-864): which file the batch goes to. -/
 def acquire (cfg : Config) (plan : Nat → Fault) (now : Parts) (id : Nat) (b : Batch) (s : St) : R Active :=
   let s0 := { s with active := none }
@@ -419,14 +437,7 @@ def acquire (cfg : Config) (plan : Nat → Fault) (now : Parts) (id : Nat) (b : 
       match readSet cfg plan s with
       | .err s => .err s
       | .crash s => .crash s
-      | .ok set s =>
-        match (if cfg.reuse then set.head? else none) with
-        | none => createFile cfg plan now id set s
-        | some n =>
-          match tryOpenReuse cfg plan n s with
-          | .crash s => .crash s
-          | .err s => createFile cfg plan now id set s
-          | .ok a s => if fits cfg now b a then .ok a s else createFile cfg plan now id set s
+      | .ok set s => openOrCreate cfg plan now id b set s
 
 /-- `ActiveFile::write_event` (lib.rs:1057-1075). -/
 def writeEvent (cfg : Config) (plan : Nat → Fault) (a : Active) (e : List Nat) (s : St) : R Active :=
